@@ -55,6 +55,12 @@
 mod config;
 mod error;
 mod in_memory_store;
+
+/// Re-exports for the external verification harness (feature `verif`).
+#[cfg(feature = "verif")]
+pub mod verif_hooks {
+    pub use crate::in_memory_store::{InMemoryNodePersistence, InMemoryPlanePersistence};
+}
 mod plane;
 mod server;
 mod util;
